@@ -57,7 +57,9 @@ fn fast_gnp_random_graph_directed(
     let mut edges = vec![];
     while v < num_nodes {
         let lr: f64 = (1.0_f64 - rng.gen::<f64>()).ln();
-        w = w + 1 + ((lr / lp) as i32);
+        // the skip saturates at i32::MAX for tiny probabilities: a saturating sum ends the
+        // generation instead of overflowing
+        w = w.saturating_add(1).saturating_add((lr / lp) as i32);
         if v == w {
             w += 1;
         }
@@ -93,7 +95,9 @@ fn fast_gnp_random_graph_undirected(
     let mut edges = vec![];
     while v < num_nodes {
         let lr: f64 = (1.0_f64 - rng.gen::<f64>()).ln();
-        w = w + 1 + ((lr / lp) as i32);
+        // the skip saturates at i32::MAX for tiny probabilities: a saturating sum ends the
+        // generation instead of overflowing
+        w = w.saturating_add(1).saturating_add((lr / lp) as i32);
         while w >= v && v < num_nodes {
             w -= v;
             v += 1;
